@@ -88,6 +88,12 @@ class Opaque:
 
 
 @dataclass(frozen=True)
+class FString:
+    """A formatted string: its literal pieces and the values formatted into it."""
+    parts: tuple
+
+
+@dataclass(frozen=True)
 class ExcValue:
     cls: str
 
@@ -179,7 +185,10 @@ class Lin:
 
 
 class TokenStream:
-    pass
+    """The tokens of the text being parsed (`<text>.split()`); `enumerated` when wrapped in enumerate()."""
+
+    def __init__(self, enumerated: bool = False):
+        self.enumerated = enumerated
 
 
 class Objects:
@@ -247,7 +256,11 @@ class AbsExec:
             return bool(v)
         if isinstance(v, (list, tuple, set, frozenset, dict)):
             return len(v) > 0
-        if isinstance(v, (Tok, Elem, Obj, MObj, Closure, Objects, Registry)):
+        if isinstance(v, MObj) and "__bool__" in v.fields:
+            return bool(v.fields["__bool__"])
+        if isinstance(v, MObj) and "__len__" in v.fields:
+            return v.fields["__len__"] > 0
+        if isinstance(v, (Tok, Elem, Obj, MObj, Closure, Objects, Registry, Lin)):
             return True
         raise self.unknown(e, f"truth value of {type(v).__name__}")
 
@@ -289,7 +302,13 @@ class AbsExec:
                 return SettingsV()
             return Opaque(e.id)
         if isinstance(e, ast.JoinedStr):
-            return Opaque("fstring")
+            parts: list[Any] = []
+            try:
+                for v in e.values:
+                    parts.append(v.value if isinstance(v, ast.Constant) else self.ev(v.value, env))  # type: ignore[attr-defined]
+            except (Unknown, Internal, Raised):
+                return Opaque("fstring")
+            return FString(tuple(parts))
         if isinstance(e, ast.Attribute):
             return self.attr(self.ev(e.value, env), e.attr, e)
         if isinstance(e, ast.NamedExpr):
@@ -346,11 +365,18 @@ class AbsExec:
                     items += list(self.iterate(self.ev(x.value, env), x))
                 else:
                     items.append(self.ev(x, env))
-            return items if isinstance(e, ast.List) else (tuple(items) if isinstance(e, ast.Tuple) else frozenset(items))
+            return items if isinstance(e, ast.List) else (tuple(items) if isinstance(e, ast.Tuple) else set(items))
         if isinstance(e, ast.Dict):
             return {self.ev(k, env): self.ev(v, env) for k, v in zip(e.keys, e.values) if k is not None}
         if isinstance(e, ast.Subscript):
             base = self.ev(e.value, env)
+            if isinstance(base, MObj) and "subscript" in self.hooks:
+                def sl(x: ast.AST) -> Any:
+                    if isinstance(x, ast.Slice):
+                        return ("slice", self.ev(x.lower, env) if x.lower else None, self.ev(x.upper, env) if x.upper else None, self.ev(x.step, env) if x.step else None)
+                    return self.ev(x, env)
+                idx_ = tuple(sl(x) for x in e.slice.elts) if isinstance(e.slice, ast.Tuple) else sl(e.slice)
+                return self.hooks["subscript"](self, e, base, idx_)
             if isinstance(e.slice, ast.Slice):
                 lo = self.ev(e.slice.lower, env) if e.slice.lower else None
                 hi = self.ev(e.slice.upper, env) if e.slice.upper else None
@@ -414,15 +440,22 @@ class AbsExec:
                 return list(a) * b
             if isinstance(a, list) and isinstance(b, list) and isinstance(e.op, ast.Add):
                 return a + b
-            if isinstance(a, (Opaque, str)) and isinstance(b, (Opaque, str)):
+            strish = lambda v: isinstance(v, (Opaque, str, FString)) or (isinstance(v, tuple) and v and v[0] in ("joined", "escaped"))  # noqa: E731
+            if strish(a) and strish(b) and isinstance(e.op, ast.Add):
+                pa = a.parts if isinstance(a, FString) else (a,)
+                pb = b.parts if isinstance(b, FString) else (b,)
+                return FString(tuple(pa) + tuple(pb))
+            if isinstance(a, (Opaque, str, FString)) and isinstance(b, (Opaque, str, FString)):
                 return Opaque("text")
             if isinstance(a, str) and isinstance(e.op, ast.Mult):
                 return Opaque("text")
-            if isinstance(a, frozenset) and isinstance(b, frozenset):
+            if isinstance(a, (set, frozenset)) and isinstance(b, (set, frozenset)):
                 if isinstance(e.op, ast.BitOr):
-                    return a | b
+                    return set(a) | set(b)
                 if isinstance(e.op, ast.Sub):
-                    return a - b
+                    return set(a) - set(b)
+                if isinstance(e.op, ast.BitAnd):
+                    return set(a) & set(b)
             raise self.unknown(e)
         if isinstance(e, (ast.GeneratorExp, ast.ListComp, ast.SetComp)):
             out: list[Any] = []
@@ -464,6 +497,11 @@ class AbsExec:
                 self.comp(e, i + 1, env, out)
 
     def iterate(self, v: Any, e: ast.AST):
+        hook = getattr(self, "iterate_hook", None)
+        if hook is not None:
+            got = hook(v)
+            if got is not None:
+                return got
         if isinstance(v, (list, tuple)):
             return list(v)
         if isinstance(v, (set, frozenset)):
@@ -516,9 +554,9 @@ class AbsExec:
             if name in v.fields:
                 return v.fields[name]
             return ("bound", v, name)
-        if isinstance(v, (Lin, int, float)) and not isinstance(v, bool):
+        if isinstance(v, (Lin, int, float, FString)) and not isinstance(v, bool):
             return ("bound", v, name)
-        if isinstance(v, (list, tuple, Objects, Logger, Opaque, str, dict, frozenset)) and not (isinstance(v, tuple) and v and v[0] in ("class",)):
+        if isinstance(v, (list, tuple, Objects, Logger, Opaque, str, dict, frozenset, set)) and not (isinstance(v, tuple) and v and v[0] in ("class",)):
             return ("bound", v, name)
         if isinstance(v, tuple) and v and v[0] in ("class",):
             return ("class-attr", v[1], name)
@@ -544,7 +582,11 @@ class AbsExec:
         if isinstance(f, tuple) and f and f[0] == "builtin":
             if f[1] == "dict" and kw and not args:
                 return dict(kw)
-            return self.builtin(f[1], args, e, env)
+            self._call_kw = kw
+            try:
+                return self.builtin(f[1], args, e, env)
+            finally:
+                self._call_kw = {}
         if isinstance(f, tuple) and f and f[0] == "bound":
             return self.method(f[1], f[2], args, kw, e)
         if isinstance(f, Opaque):
@@ -574,6 +616,13 @@ class AbsExec:
         return None
 
     def builtin(self, name: str, args: list[Any], e: ast.AST, env: dict[str, Any] | None = None) -> Any:
+        if args and isinstance(args[0], TokenStream):
+            if name == "enumerate":
+                return TokenStream(enumerated=True)
+            if name in ("list", "tuple", "iter"):
+                return args[0]
+            if name == "len":
+                return Opaque("number of tokens")
         if name == "locals" and env is not None:
             return {k: v for k, v in env.items() if not k.startswith("<") and not isinstance(v, Closure) and k in env.get("<locals>", env)}
         if name == "vars" and len(args) == 1 and isinstance(args[0], MObj):
@@ -616,15 +665,26 @@ class AbsExec:
             raise self.unknown(e, f"{name} is floating-point arithmetic")
         if name == "len" and isinstance(args[0], (list, tuple, set, frozenset, dict)):
             return len(args[0])
+        if name == "len" and isinstance(args[0], MObj) and "__len__" in args[0].fields:
+            return args[0].fields["__len__"]
         if name == "reversed" and isinstance(args[0], (list, tuple)):
             return list(reversed(args[0]))
-        if name in ("list", "tuple", "iter", "sorted") and args:
+        if name == "sorted" and args:
+            v = list(self.iterate(args[0], e))
+            kw_ = getattr(self, "_call_kw", {})
+            if not all(isinstance(x, str) for x in v):
+                raise self.unknown(e, "sorting values that are not strings")
+            keyf = kw_.get("key")
+            if keyf is not None and not (isinstance(keyf, tuple) and keyf == ("builtin", "len")):
+                raise self.unknown(e, "sort key")
+            return sorted(v, key=(len if keyf is not None else None), reverse=bool(kw_.get("reverse", False)))  # type: ignore[arg-type]
+        if name in ("list", "tuple", "iter") and args:
             v = self.iterate(args[0], e)
             return list(v) if name != "tuple" else tuple(v)
         if name in ("list",) and not args:
             return []
         if name in ("set", "frozenset"):
-            return frozenset(self.iterate(args[0], e)) if args else frozenset()
+            return (set if name == "set" else frozenset)(self.iterate(args[0], e)) if args else (set() if name == "set" else frozenset())
         if name == "any":
             return any(self.truth(x, e) for x in self.iterate(args[0], e))
         if name == "all":
@@ -633,6 +693,12 @@ class AbsExec:
             return self.truth(args[0], e)
         if name == "str":
             return Opaque("text")
+        if name == "enumerate" and isinstance(args[0], TokenStream):
+            return TokenStream(enumerated=True)
+        if name in ("list", "tuple", "iter") and args and isinstance(args[0], TokenStream):
+            return args[0]
+        if name == "len" and isinstance(args[0], TokenStream):
+            return Opaque("number of tokens")
         if name == "enumerate":
             return [(i, v) for i, v in enumerate(self.iterate(args[0], e))]
         if name == "range" and all(isinstance(a, int) for a in args):
@@ -681,6 +747,39 @@ class AbsExec:
                 if not hits:
                     raise Raised("ValueError", e)
                 return hits[0]
+        if isinstance(recv, (set, frozenset)):
+            others = [set(self.iterate(a, e)) for a in args]
+            if name == "union":
+                return set(recv).union(*others)
+            if name == "difference":
+                return set(recv).difference(*others)
+            if name == "intersection":
+                return set(recv).intersection(*others)
+            if name == "copy":
+                return set(recv)
+            if name == "issubset":
+                return set(recv) <= others[0]
+            if isinstance(recv, set):
+                if name == "update":
+                    recv.update(*others)
+                    return None
+                if name == "difference_update":
+                    recv.difference_update(*others)
+                    return None
+                if name == "intersection_update":
+                    recv.intersection_update(*others)
+                    return None
+                if name == "add":
+                    recv.add(args[0])
+                    return None
+                if name == "discard":
+                    recv.discard(args[0])
+                    return None
+                if name == "remove":
+                    if args[0] not in recv:
+                        raise Internal("KeyError", f"`{unparse(e)}`", e)
+                    recv.remove(args[0])
+                    return None
         if isinstance(recv, dict):
             if name == "items":
                 return [(k, v) for k, v in recv.items()]
@@ -718,7 +817,7 @@ class AbsExec:
                 return recv.kind == "function"
             if name == "is_operator":
                 return recv.kind == "operator"
-        if isinstance(recv, Opaque) and name in self.helpers:
+        if isinstance(recv, (Opaque, MObj)) and name in self.helpers and f"method:{name}" not in self.hooks:
             h = self.helpers[name]
             node = h.analysis_node if hasattr(h, "analysis_node") else h.node
             skip = 0 if "staticmethod" in getattr(h, "decorators", []) else 1
@@ -728,6 +827,8 @@ class AbsExec:
             if skip:
                 env2[names[0]] = recv
             return self.call_closure(Closure(node, env2), ([recv] if skip else []) + args, kw, e)
+        if isinstance(recv, FString):
+            return Opaque("text")
         if isinstance(recv, (Opaque, str)):
             if name == "split" and isinstance(recv, Opaque):
                 return TokenStream()
@@ -800,6 +901,8 @@ class AbsExec:
                 env[s.target.id] = cur + v if isinstance(s.op, ast.Add) else cur - v  # type: ignore[union-attr]
             elif isinstance(cur, list) and isinstance(s.op, ast.Add):
                 cur.extend(self.iterate(v, s))
+            elif isinstance(cur, (set, frozenset)) and isinstance(v, (set, frozenset)) and isinstance(s.op, (ast.Sub, ast.BitOr, ast.BitAnd)):
+                env[s.target.id] = (set(cur) - set(v)) if isinstance(s.op, ast.Sub) else ((set(cur) | set(v)) if isinstance(s.op, ast.BitOr) else (set(cur) & set(v)))  # type: ignore[union-attr]
             else:
                 raise self.unknown(s)
         elif isinstance(s, ast.If):
@@ -909,6 +1012,8 @@ def freeze(v: Any) -> Any:
         return v.frozen()
     if isinstance(v, list):
         return ("L",) + tuple(freeze(x) for x in v)
+    if isinstance(v, set):
+        return frozenset(v)
     if isinstance(v, dict):
         return ("D",) + tuple(sorted((repr(k), freeze(x)) for k, x in v.items()))
     return v
@@ -927,6 +1032,13 @@ class Split:
     pre: list[ast.stmt]
     loop: ast.For
     post: list[ast.stmt]
+    token_var: str = ""
+    index_var: str | None = None
+
+    def bind(self, env: dict[str, Any], tok: Any) -> None:
+        env[self.token_var] = tok
+        if self.index_var is not None:
+            env[self.index_var] = Opaque("token index")
 
 
 def split_token_loop(ex: AbsExec, body: list[ast.stmt], env: dict[str, Any]) -> Split:
@@ -936,7 +1048,12 @@ def split_token_loop(ex: AbsExec, body: list[ast.stmt], env: dict[str, Any]) -> 
         if isinstance(s, ast.For):
             it = ex.ev(s.iter, dict(env))
             if isinstance(it, TokenStream):
-                return Split(body[:i], s, body[i + 1:])
+                tg = s.target
+                if isinstance(tg, ast.Name) and not it.enumerated:
+                    return Split(body[:i], s, body[i + 1:], tg.id)
+                if isinstance(tg, ast.Tuple) and it.enumerated and len(tg.elts) == 2 and all(isinstance(x, ast.Name) for x in tg.elts):
+                    return Split(body[:i], s, body[i + 1:], tg.elts[1].id, tg.elts[0].id)  # type: ignore[union-attr]
+                raise AnalysisError(f"{ex.qual}: target of the token loop not recognised")
         ex.stmt(s, env)
     raise AnalysisError(f"{ex.qual}: token loop (for token in <text>.split()) not found")
 
